@@ -62,7 +62,13 @@ def schedule_rle():
 
 
 def without_replay(s):
-    return {k: v for k, v in s.items() if k != 'replay'}
+    """The schedule config for a *different* execution of the same case (other call sequence): the pinned thread
+    choices do not apply to it; the strategy that produced them does."""
+    out = {k: v for k, v in s.items() if k != 'replay'}
+    st = str(out.get('strategy', 'serial'))
+    if st.startswith('replay-of-'):
+        out['strategy'] = st[len('replay-of-'):]
+    return out
 
 
 def pin_with(run_under_test, case):
